@@ -23,7 +23,7 @@ INFO = {
     "C02": ("rapid PBT + exhaustive boundary cross product: kind x value x comparison value x literal spelling, oracle computed by construction (math/big-checked spellings)",
             "generated boundary/spelling cross product with a by-construction oracle",
             "§4 C02"),
-    "C03": ("rapid PBT, metamorphic: outcome of `A and B`, `A or B`, `not A`, De Morgan and double negation against the 3x3 table of the parts' own outcomes",
+    "C03": ("rapid PBT, metamorphic: outcome of `A and B`, `A or B`, `not A`, De Morgan and double negation against the 3x3 table of the parts' own outcomes; chains of up to 48 operands of planted outcome against the left-to-right fold",
             "metamorphic relation (composite vs. parts) over generated sub-expressions",
             "§4 C03"),
     "C04": ("rapid PBT, metamorphic: each negated operator vs. its positive form, contains vs. in, not(...) wrappers, on generated (selector, literal, datum) triples",
@@ -44,7 +44,7 @@ INFO = {
     "C09": ("exhaustive operator x kind x wrapper x literal matrix plus rapid PBT over the whole reflect universe; invariant: no panic, error implies false",
             "exhaustive kind matrix + generated-input invariant check",
             "§4 C09"),
-    "C10": ("exhaustive token sequences, rapid byte strings/mutations, hostile constants, native go fuzzing (thorough); invariant: no panic, evaluator xor error, Parse agrees",
+    "C10": ("exhaustive token sequences, rapid byte strings/mutations, long shapes, hostile constants, unbudgeted entry-point agreement on 10^5..10^6-step inputs, native go fuzzing (thorough); invariant: no panic, evaluator xor error, Parse agrees, tree dumps and evaluator evaluates",
             "enumeration + random mutation + coverage-guided fuzzing with a totality invariant",
             "§4 C10"),
     "C11": ("rapid PBT + pathological nesting sweep: budgets around the measured step count N (hook) and geometric sweep; exactness, monotonicity, step bound",
@@ -53,7 +53,7 @@ INFO = {
     "C12": ("rapid PBT under the Go race detector: fresh shared evaluator/filter, k goroutines, results compared with sequential results",
             "race-detector run of generated concurrent histories + sequential-equivalence oracle",
             "§4 C12"),
-    "C13": ("rapid stateful PBT: call histories on one evaluator/filter compared call-by-call with fresh instances; datum snapshots before/after; Expression() round trip",
+    "C13": ("rapid stateful PBT: call histories on one evaluator/filter (incl. the caller updating the datum in place between calls) compared call-by-call with fresh instances and with the history-free reference interpreter; datum snapshots before/after; result aliasing; Expression() round trip",
             "stateful model-based PBT (fresh-instance model) with deep snapshots",
             "§4 C13"),
     "C14": ("rapid PBT with repetition: order-sensitive map quantifiers/filters evaluated r=200 times and on rebuilt data; all outcomes identical",
@@ -74,7 +74,7 @@ INFO = {
     "C19": ("rapid PBT: ExpressionDump of parser-produced trees vs an independent reference renderer, byte-equal; repeatability",
             "differential against an independent reference renderer",
             "§4 C19"),
-    "C20": ("differential: a second parser generated at check time from grammar.peg (pegc) vs grammar.Parse on grammar-derived inputs, token sequences and rune sweeps",
+    "C20": ("differential: a second parser generated at check time from grammar.peg (pegc: rule table read from the .peg, code blocks compiled verbatim) vs grammar.Parse on grammar-derived inputs, token sequences, long shapes, rune sweeps and native fuzzing; accept/reject, tree, exact error text and number of expression nodes entered must agree; per-node coverage of the .peg reported",
             "differential between the shipped parser and an interpreter of the shipped grammar over generated inputs",
             "§4 C20, §2.4"),
 }
